@@ -8,6 +8,7 @@ import Proofs.Constraint
 import Proofs.ConstraintTyped
 import Proofs.ConstraintDerive
 import Proofs.ConstraintSound
+import Proofs.KernelConstraint
 
 namespace Asn1.C14
 
@@ -288,5 +289,51 @@ example : (Scalar.applyOp ⟨⟨[], tI⟩, .int 7⟩ (pyAdd 5)).isOk = false := 
 example : (Scalar.applyOp ⟨⟨[], tI⟩, .int 7⟩ (pyAdd 3)).isOk = true := by decide
 example : (Scalar.applyOp ⟨⟨[], intersection [valueSize 2 4]⟩, .bytes [97, 98, 99]⟩ (pySlice 0 1)).isOk = false := by
   decide
+
+/-! ### at the source level: the leaf tests, translated from /repo on this run -/
+
+/-- `ValueRangeConstraint._testValue` (type/constraint.py, translated by gen/py2lean.py into `GenK.rangeTest`; `start`
+    and `stop` as parameters) is the model's evaluation of a value range on an integer payload: accepted exactly between
+    the bounds, `ValueConstraintError` otherwise -/
+theorem source_range_is_model (lo hi z : Int) (i : Option Nat) :
+    GenK.rangeTest lo hi z = Kernels.liftRes (run (valueRange lo hi) i (.atom (.int z))) := by
+  rw [Kernels.rangeTest_kernel]; simp [run, valueRange, bounds]
+
+/-- `ValueSizeConstraint._testValue` on an octet payload -/
+theorem source_size_is_model (lo hi : Int) (bs : List Nat) (i : Option Nat) :
+    GenK.sizeTest lo hi (bs.map Int.ofNat) = Kernels.liftRes (run (valueSize lo hi) i (.atom (.bytes bs))) := by
+  rw [Kernels.sizeTest_kernel]; simp [run, valueSize, bounds]
+
+/-- `SingleValueConstraint._testValue` on an integer payload (a constraint with operands: the operand-less one never
+    reaches `_testValue`) -/
+theorem source_single_value_is_model (s : List Int) (hs : s ≠ []) (z : Int) (i : Option Nat) :
+    GenK.singleValueTest s z = Kernels.liftRes (run (singleValue (s.map Atom.int)) i (.atom (.int z))) := by
+  rw [Kernels.singleValueTest_kernel]
+  cases s with
+  | nil => exact absurd rfl hs
+  | cons a r =>
+    have hr : ∀ l : List Atom, (Ops.ofRaws l).raws = l := by
+      intro l; induction l with
+      | nil => rfl
+      | cons x xs ih => simp [Ops.ofRaws, Ops.raws, ih]
+    simp [run, singleValue, Ops.ofRaws, Ops.isNil, Ops.raws, hr]
+
+/-- `PermittedAlphabetConstraint._testValue` on an octet payload -/
+theorem source_alphabet_is_model (s : List Int) (hs : s ≠ []) (bs : List Nat) (i : Option Nat) :
+    GenK.alphabetTest s (bs.map Int.ofNat) =
+      Kernels.liftRes (run (permittedAlphabet (s.map Atom.int)) i (.atom (.bytes bs))) := by
+  rw [Kernels.alphabetTest_kernel]
+  cases s with
+  | nil => exact absurd rfl hs
+  | cons a r =>
+    have hr : ∀ l : List Atom, (Ops.ofRaws l).raws = l := by
+      intro l; induction l with
+      | nil => rfl
+      | cons x xs ih => simp [Ops.ofRaws, Ops.raws, ih]
+    simp [run, permittedAlphabet, Ops.ofRaws, Ops.isNil, Ops.raws, hr]
+
+example : GenK.rangeTest 0 10 11 = .error (.lib "ValueConstraintError") := by rfl
+example : GenK.sizeTest 2 4 [97, 98, 99] = .ok () := by rfl
+example : GenK.alphabetTest [97, 98] [97, 99] = .error (.lib "ValueConstraintError") := by rfl
 
 end Asn1.C14
